@@ -8,6 +8,28 @@
 # rule: how cases are generated and what makes one non-trivial / distinct (copied into evidence)
 
 PROPS = {
+    "C16": {
+        "level": "fault_enumeration",
+        "rule": "rapid generates tracker histories for a simulated GitLab REST API (internal/gitlabsim: issues, notes and their edits, "
+                "title / description system notes, label and state resource events, four users, paginated by 2; hostile text: CRLF, "
+                "control and NUL characters, RTL override, emoji, 1.5 kB texts, empty) in 2..3 rounds of growth, imported through "
+                "bridge.LoadBridge(...).ImportAll with configuration and token stored as the CLI does. Oracles: every imported bug "
+                "reads back and validates; a round without injected fault relays no error; importing again while every issue is "
+                "listed again adds no operation (idempotence); the compiled bugs after incremental rounds equal those of a fresh "
+                "repository importing the final tracker from scratch (incrementality); then the last round is recorded and EVERY "
+                "request of it is failed with 403 (404 for every third, one transient 500 for every eighth; the repository is restored "
+                "from a snapshot each time): if the run relayed an error the stored lastImportTime must be unchanged, and after one more "
+                "clean run the operations per issue (type, author, time, payload, gitlab id) must equal those of the same rounds "
+                "without any failure. The previous cursor is aged by an hour and the growth by 30 minutes so that the 5 s safety "
+                "margin of the cursor cannot hide a lost update. Non-trivial: a history with growth between rounds, and every fault "
+                "run. Distinct: history shape; endpoint x status of the injected failure.",
+        "exhaustive": False,
+        "exhaustive_note": "request indices of the last round are enumerated exhaustively (403) per generated history; histories are sampled",
+        "assumptions": ["connection-level failures (no HTTP response) are not injected in-process: the importer dereferences a nil response in a goroutine",
+                        "which 'changed the description' note an edit of the description is attributed to is a heuristic of the importer and is not compared",
+                        "titles are never blank after clean-up (GitLab forbids blank titles); only system notes the importer knows are generated"],
+        "tests": [{"name": "TestC16Import", "quick": 6, "shards_quick": 4, "thorough": 40, "shards": 16, "timeout_quick": 900}],
+    },
     "C18": {
         "level": "exploration",
         "rule": "TestC18Concurrent: 2..8 (thorough 16) goroutines each run a rapid-generated list of 3..14 cache calls (new bug, comment / "
@@ -325,6 +347,13 @@ PROPS = {
 
 # Text for MANIFEST.json, per claimed property.
 MANIFEST_TEXT = {
+    "C16": {
+        "technique": "property-based testing (rapid) of tracker histories against a simulated GitLab server with exhaustive HTTP-fault enumeration per request of a round; differential oracles (never-failed run, import from scratch)",
+        "level_text": "Generated tracker histories are imported in rounds; idempotence and incrementality are checked differentially, and every "
+                      "request of the last round is failed in turn, followed by a clean run, and compared with the same rounds without failure.",
+        "design_ref": "DESIGN.md §4 C16",
+        "level_note": "Trusted: the simulated server as a stand-in for GitLab's API (five endpoints, pagination headers, no rate-limit header); go-gitlab's retry policy (429/5xx retried, 403/404 not).",
+    },
     "C18": {
         "technique": "property-based concurrency testing (rapid-generated multi-goroutine workloads, varied GOMAXPROCS and yields) with an acknowledged-operations oracle, deadlock watchdog and rebuild differential",
         "level_text": "Generated concurrent workloads against one live cache; the oracle compares acknowledged operations with what git holds "
